@@ -87,9 +87,7 @@ func (m *Machine[S]) Register() *Machine[S] {
 func (m *Machine[S]) safeApply(s *S, op string) (en bool, f *Fail) {
 	defer func() {
 		if r := recover(); r != nil {
-			buf := make([]byte, 2048)
-			buf = buf[:runtime.Stack(buf, false)]
-			en, f = false, Failf("unexpected panic in %s: %v\n%s", op, r, buf)
+			en, f = false, PanicToFail(r)
 		}
 	}()
 	return m.Apply(s, op)
